@@ -524,7 +524,7 @@ class Executor(object):
         module, fn = self.sources.function(ref)
         self.cur_module = module
         self.contract = contract
-        vname = ','.join('%s=%s' % kv for kv in sorted(variant.items()))
+        vname = ','.join('%s=%s' % kv for kv in sorted(variant.items()) if not kv[0].startswith('__'))
         self.current_name = '%s[%s]%s' % (contract.key, self.twin, ('{%s}' % vname) if vname else '')
         self.obligs = []
         self.work = [[]]
@@ -568,7 +568,7 @@ class Executor(object):
             t = variant.get(p, t)
             params[p] = self.fresh(t, p)
         for k, t in variant.items():
-            if '.' in k:
+            if '.' in k and not k.startswith('__'):
                 root, fld = k.split('.', 1)
                 params[root].fields[fld] = self.fresh(t, k)
         return params
@@ -1140,6 +1140,15 @@ class Executor(object):
         kind, contract, recv, extra = self.resolve_callee_static(call.func)
         if kind == 'pure':
             return []
+        if kind == 'ghost':
+            return [(self.G, f) for f in extra]
+        if kind == 'alternatives':
+            locs = []
+            for alt in extra:
+                fake = ast.Call(func=alt, args=call.args, keywords=call.keywords)
+                ast.copy_location(fake, call)
+                locs.extend(self.call_write_set(fake, depth + 1))
+            return locs
         if kind == 'inline':
             module, fnode = extra
             if depth > 4:
@@ -1199,10 +1208,25 @@ class Executor(object):
             root = m.split('.')[0]
             if root != 'G' and root not in roots:
                 if isinstance(contract.params.get(root, ''), str) and contract.params.get(root, '').startswith('obj:'):
+                    arg = self.arg_node_for(contract, call, root)
+                    if isinstance(arg, ast.Name) and arg.id not in self.env:
+                        continue        # an object created inside the loop body: it does not exist at the loop head
                     raise Unsupported('write set: argument %s of %s is not a simple name (line %s)' % (root, contract.key, call.lineno))
                 continue
             locs.extend(self.resolve_path(m, roots))
         return locs
+
+    def arg_node_for(self, contract, call, pname):
+        pnames = list(contract.params.keys())
+        if pnames and pnames[0] in ('self', 'cls'):
+            pnames = pnames[1:]
+        for p, a in zip(pnames, call.args):
+            if p == pname:
+                return a
+        for kw in call.keywords:
+            if kw.arg == pname:
+                return kw.value
+        return None
 
     def eval_pure(self, node):
         """Evaluate a name / attribute chain without side effects (used for static frames)."""
@@ -1269,8 +1293,20 @@ class Executor(object):
         if isinstance(fnode, ast.Name):
             if fnode.id in self.env:
                 return self._static_of_value(self.env[fnode.id], fnode)
-            v = self.world.resolve_global(self, fnode.id)
+            try:
+                v = self.world.resolve_global(self, fnode.id)
+            except Unsupported:
+                # a local bound to a function inside the loop (`opener = f if c else g`): the union over the alternatives
+                alts = []
+                for n in ast.walk(self.top_fn_node):
+                    if isinstance(n, ast.Assign) and len(n.targets) == 1 and isinstance(n.targets[0], ast.Name) and n.targets[0].id == fnode.id:
+                        alts.extend([n.value.body, n.value.orelse] if isinstance(n.value, ast.IfExp) else [n.value])
+                if not alts or any(isinstance(a, ast.Name) and a.id == fnode.id for a in alts):
+                    raise
+                return ('alternatives', None, None, alts)
             return self._static_of_value(v, fnode)
+        if isinstance(fnode, ast.IfExp):
+            return ('alternatives', None, None, [fnode.body, fnode.orelse])
         raise Unsupported('write set: callee expression at line %s' % getattr(fnode, 'lineno', '?'))
 
     def _static_of_value(self, v, fnode):
@@ -1286,6 +1322,9 @@ class Executor(object):
                 c = dsl.CONTRACTS.get(v.info[0])
                 if c is not None:
                     return ('contract', c, None, None)
+                from .world import LIB_WRITES
+                if v.info[0] in LIB_WRITES:
+                    return ('ghost', None, None, LIB_WRITES[v.info[0]])
                 return ('pure', None, None, None)
             if v.how == 'repo':
                 c = self.world.contract_for_repo_func(v)
@@ -1827,6 +1866,11 @@ class Executor(object):
                 return type(base)(base.items[lo:hi])
             iv = self.eval(node.slice)
             ic = VInt(to_int(iv)).concrete()
+            if ic is None and self.mode == 'spec' and base.items:
+                cur = base.items[-1]
+                for k in range(len(base.items) - 2, -1, -1):
+                    cur = merge(to_int(iv) == k, base.items[k], cur)
+                return cur
             if ic is None:
                 raise Unsupported('symbolic index into a tuple')
             if not -len(base.items) <= ic < len(base.items):
